@@ -48,10 +48,10 @@ Init == /\ gdb = 0 /\ gs = 0 /\ extra = {}
 \* outcome classes a step may show: "ok", "error", or either (depends on the ORM's transaction bookkeeping)
 Step(c) ==
   /\ Len(hist) < MaxDepth
-  /\ (c \in LibCmds \ {"lib_load", "lib_other_rw_reader", "lib_other_ro_reader"}) => sess.open
-  /\ (c = "lib_load") => ~sess.open
+  /\ (c \in LibCmds \ (LoadCmds \cup {"lib_other_rw_reader", "lib_other_ro_reader"})) => sess.open
+  /\ (c \in LoadCmds) => ~sess.open
   /\ LET s1 ==
-       CASE c = "lib_load" -> [open |-> TRUE, pending |-> NoPending, emitted |-> FALSE, stmt |-> FALSE]
+       CASE c \in LoadCmds -> [open |-> TRUE, pending |-> NoPending, emitted |-> FALSE, stmt |-> FALSE]
          [] c \in StmtCmds -> [sess EXCEPT !.stmt = (SessionClass # "readonly-autocommit")]     \* goes into the open transaction
          [] c = "lib_edit" -> [sess EXCEPT !.pending.dirty = TRUE]
          [] c = "lib_add" -> [sess EXCEPT !.pending.new = TRUE]
